@@ -1442,6 +1442,22 @@ theorem compose_cost (g : Machine) (I : Strm) :
     · left; exact stampOuts_pulls _ _ _ o h
     · right; exact runFrom_pulls_from_input g I.outs _ _ I.fin o h
 
+/-- **compose**: causal operators compose, and the cost of a pipeline is the composition of the
+    costs - for pipelines of ANY length (`ms ++ [g]`, by induction through `runPipe_ext`):
+    (1) the pipeline extended by a stage is causal; (2) every result of the added stage carries the
+    pull stamp of the result of the shorter pipeline that triggered it. -/
+theorem compose (ms : List Machine) (g : Machine) (xs ys : VL) :
+    (pipeOuts (ms ++ [g]) (xs ++ ys)).filter (fun o => decide (o.pulls ≤ xs.length)) = pipeOuts (ms ++ [g]) xs ∧
+    ∀ o ∈ pipeOuts (ms ++ [g]) xs,
+      o.pulls = 0 ∨ (∃ i ∈ pipeOuts ms xs, o.pulls = i.pulls ∧ i.apps ≤ o.apps) ∨
+      (∃ p ua, (Stream.runPipe ms (src xs)).fin = some (p, ua) ∧ o.pulls = p ∧ ua ≤ o.apps) := by
+  refine ⟨causal_pipeline (ms ++ [g]) xs ys, ?_⟩
+  intro o ho
+  have : pipeOuts (ms ++ [g]) xs = (runOn g (Stream.runPipe ms (src xs))).outs := by
+    simp [pipeOuts, Stream.runPipe, List.foldl_append]
+  rw [this] at ho
+  exact compose_cost g _ o ho
+
 theorem runPipe_cons (m : Machine) (ms : List Machine) (I : Strm) : runPipe (m :: ms) I = runPipe ms (runOn m I) := rfl
 theorem runPipe_append (ms ns : List Machine) (I : Strm) : runPipe (ms ++ ns) I = runPipe ns (runPipe ms I) := by
   simp [Stream.runPipe, List.foldl_append]
